@@ -27,6 +27,12 @@ pub fn build_pass_2(
     pass1: BuildResultPass1,
     common_context: &CommonContext,
 ) -> Result<BuildResultPass2, Error> {
+    #[cfg(feature = "verif")]
+    crate::verif::emit(format!(
+        "\"ev\":\"pass2\",\"segments\":{},\"items\":{}",
+        pass1.segments.len(),
+        pass1.segments.iter().map(|s| s.items.len()).sum::<usize>()
+    ));
     let mut code = vec![];
     let code_start_address = 0x0;
     let mut eeprom = vec![];
